@@ -32,6 +32,29 @@ theorem readN_stable (rd1 rd2 : Bytes → Res (Val × Bytes)) (h : ∀ bs, Stabl
     simp only [readN]
     exact Stable.bind (h bs) fun (_, bs1) => Stable.bind (ih bs1) fun _ => Stable.refl _
 
+theorem readSlots_stable (wide : List Nat) (rd1 rd2 : Bytes → Res (Val × Bytes)) (h : ∀ bs, Stable (rd1 bs) (rd2 bs)) :
+    ∀ N n, n ≤ N → ∀ bs, Stable (readSlots wide rd1 n bs) (readSlots wide rd2 n bs) := by
+  intro N
+  induction N with
+  | zero =>
+    intro n hn bs
+    have : n = 0 := by omega
+    subst this; exact Stable.refl _
+  | succ N ih =>
+    intro n hn bs
+    cases n with
+    | zero => exact Stable.refl _
+    | succ n =>
+      simp only [readSlots]
+      refine Stable.bind (h bs) fun x => ?_
+      obtain ⟨v, bs1⟩ := x
+      dsimp only
+      split
+      · cases n with
+        | zero => exact Stable.refl _
+        | succ m => exact Stable.bind (ih m (by omega) bs1) fun _ => Stable.refl _
+      · exact Stable.bind (ih n (by omega) bs1) fun _ => Stable.refl _
+
 theorem readTy_stable (rc1 rc2 : Rec) (h : RecStable rc1 rc2) : ∀ ty pool binds bs,
     Stable (readTy rc1 pool binds ty bs) (readTy rc2 pool binds ty bs) := by
   intro ty
@@ -48,6 +71,12 @@ theorem readTy_stable (rc1 rc2 : Rec) (h : RecStable rc1 rc2) : ∀ ty pool bind
     simp only [readTy]
     split
     · exact Stable.bind (readN_stable _ _ (fun bs => ih pool binds bs) _ _) fun _ => Stable.refl _
+    · exact Stable.refl _
+  | vecSlots e wd el ih =>
+    intro pool binds bs
+    simp only [readTy]
+    split
+    · exact Stable.bind (readSlots_stable wd _ _ (fun bs => ih pool binds bs) _ _ (Nat.le_refl _) _) fun _ => Stable.refl _
     · exact Stable.refl _
   | ref id => intro pool binds bs; exact h id pool bs
 
